@@ -15,9 +15,9 @@ Proof. exact extract_exact. Qed.
 Print Assumptions C09_extract_exact.
 
 (* in everything libwayland's own print-out of the closure retains, this agrees with what log mode
-   decodes from that print-out (uses C01's decode_render); NULL strings excluded: known finding D5 *)
+   decodes from that print-out (uses C01's decode_render); NULL strings included since the fix of D5 *)
 Theorem C09_gdb_agrees_with_log : forall k target cl time wargs queue conn,
-  wf_closure cl = true -> no_null_string (cl_args cl) = true ->
+  wf_closure cl = true ->
   wire_args (codes (cl_sig cl)) (cl_types cl) (cl_args cl) = Some wargs ->
   let w := mkWmsg (Z.to_N time) queue conn (match k with Sent => true | _ => false end) target (cl_sender cl) (cl_name cl) wargs in
   wf_wmsg w = true -> 0 <= time ->
@@ -38,9 +38,10 @@ Example C09_ex : extract_message RecvServer (s2l "wl_surface")
              [CObj None; CArr [1; 2; 3]; CInt 5; CFixed 384] 7) = true.
 Proof. vm_compute. split; reflexivity. Qed.
 
-(* KNOWN FINDING (D5): for a NULL string GDB mode reports a string, log mode a null argument *)
-Example C09_null_string_differs :
-  extract_arg false (mkClosure [] (s2l "s") [None] [CStr None] 1) 115%N 0 = Ok (PStr (s2l "[null string]")) /\
+(* D5 (fixed in /repo): a NULL string is reported as a null argument by GDB mode, which is what log mode decodes
+   from libwayland's print-out `nil` of the same closure *)
+Example C09_null_string_agrees :
+  extract_arg false (mkClosure [] (s2l "s") [None] [CStr None] 1) 115%N 0 = Ok (PNull None) /\
   denote_arg (mkDialect true true true true false) WNil = PNull None.
 Proof. vm_compute. split; reflexivity. Qed.
 
